@@ -2,7 +2,7 @@
 
 For a property P:
   * behaviour-preserving variants (whole package re-emitted through ast.unparse: comments dropped,
-    layout and quoting normalised; docstrings stripped) must give the same verdict as the real tree
+    layout and quoting normalised; docstrings stripped; every local variable renamed) must give the same verdict as the real tree
     (no new violation, same known findings);
   * every mutant of P's table (one rule instance broken by a text edit that still parses) must make
     the check report a VIOLATION of the expected rule.
@@ -47,10 +47,11 @@ MUTANTS = [
     ("C02", "null rendered as None", "attributes.py", 'cell_value = "" if raw_value is None else str(raw_value)', "cell_value = str(raw_value)", "R02.4"),
     # ---- C03
     ("C03", "footnote reservation dropped", "services/document_service.py", "        if document.rtf_footnote and document.rtf_footnote.text:\n            additional_rows += 1\n", "", "R03.1"),
-    ("C03", "overflow guard >= instead of >", "pagination/core.py", "(current_rows + row_height > available_rows)", "(current_rows + row_height >= available_rows)", "R04.1"),
+    ("C03", "overflow tolerated by one row", "pagination/core.py", "(current_rows + row_height > available_rows)", "(current_rows + row_height > available_rows + 1)", "R04.1"),
     ("C03", "heading rows not added to row height", "pagination/core.py", "total_rows = max_lines_in_row + pageby_rows + subline_rows", "total_rows = max_lines_in_row + subline_rows", "R04.6"),
     ("C03", "column width taken as cumulative boundary", "pagination/core.py", "col_width = current_cumulative - prev_cumulative", "col_width = current_cumulative", "R03.6"),
     # ---- C04
+    ("C04", "overflow guard >= instead of > (breaks one row early)", "pagination/core.py", "(current_rows + row_height > available_rows)", "(current_rows + row_height >= available_rows)", "R04.1"),
     ("C04", "current_rows > 0 guard dropped", "pagination/core.py", ") and current_rows > 0:", ") and True:", "R04.1"),
     ("C04", "subline break skipped", "pagination/core.py", 'if row["is_subline_start"] and i > 0:\n                force_break = True', 'if row["is_subline_start"] and i > 0:\n                force_break = False', "R04.1"),
     ("C04", "new_page ignored by page_by strategy", "pagination/strategies/grouping.py", "            new_page=context.rtf_body.new_page,\n", "            new_page=False,\n", "R04.2"),
@@ -166,12 +167,32 @@ def _strip_docstrings(tree: ast.AST) -> None:
                 n.body = n.body[1:]
 
 
+def _rename_locals(tree: ast.AST, suffix: str = "_r") -> None:
+    """consistently rename every local variable (not parameters, imports, nested function names) of every
+    outermost function/method: a behaviour-preserving alpha-conversion"""
+    from .alpha import locals_of
+
+    def outer(node):
+        for c in ast.iter_child_nodes(node):
+            if isinstance(c, (ast.FunctionDef, ast.AsyncFunctionDef)):
+                yield c
+            elif isinstance(c, ast.ClassDef):
+                yield from outer(c)
+    for fn in outer(tree):
+        m = {a: a + suffix for a in locals_of(fn)}
+        for n in ast.walk(fn):
+            if isinstance(n, ast.Name) and n.id in m:
+                n.id = m[n.id]
+
+
 def make_benign(dst: pathlib.Path, root: str, kind: str) -> None:
     _copy_tree(dst, root)
     for p in (dst / "src" / "rtflite").rglob("*.py"):
         tree = ast.parse(p.read_text(encoding="utf-8"))
         if kind == "unparse+nodoc":
             _strip_docstrings(tree)
+        if kind == "rename-locals":
+            _rename_locals(tree)
         p.write_text(ast.unparse(tree) + "\n", encoding="utf-8")
 
 
@@ -218,7 +239,8 @@ def run(ctx) -> None:
     root = str(ctx.pm.root)
     base_known = sorted(f.key for f in ctx.findings)      # includes known findings (filtered later by report)
     jobs = [("benign:unparse", prop, root, "ast.unparse round trip of the whole package", "", "", "", ""),
-            ("benign:unparse+nodoc", prop, root, "ast.unparse round trip with docstrings stripped", "", "", "", "")]
+            ("benign:unparse+nodoc", prop, root, "ast.unparse round trip with docstrings stripped", "", "", "", ""),
+            ("benign:rename-locals", prop, root, "every local variable of every function renamed (alpha-conversion)", "", "", "", "")]
     muts = [m for m in MUTANTS if m[0] == prop]
     for m in muts:
         jobs.append(("mutant", prop, root, m[1], m[2], m[3], m[4], m[5]))
@@ -250,7 +272,7 @@ def run(ctx) -> None:
             else:
                 survived += 1
                 ctx.instance("SELFTEST", "sa/selftest.py", f"mutant `{r['name']}` SURVIVED (exit {r['rc']}, {r['tail'][-1:] })")
-    ctx.extra["selftest"] = {"mutants": len(muts), "killed": killed, "skipped": skipped, "survived": survived, "benign_variants": 2}
+    ctx.extra["selftest"] = {"mutants": len(muts), "killed": killed, "skipped": skipped, "survived": survived, "benign_variants": 3}
     if muts and skipped * 3 > len(muts):
         raise AnalysisError(f"self-test: {skipped}/{len(muts)} mutants no longer apply to the tree; the mutant table is out of date")
     if survived:
